@@ -59,6 +59,10 @@ import os
 
 HERE = os.path.dirname(os.path.abspath(__file__))
 
+# every source function whose control flow is regenerated on every run (tools/coverage_map.py reads this)
+TRANSLATED = ['pyramid/config/actions.py:ActionState.execute_actions',
+              'pyramid/config/actions.py:ActionConfiguratorMixin.action']
+
 
 class Problem(Exception):
     pass
